@@ -69,8 +69,27 @@ D7 == [prolog |-> <<>>, nodes |-> <<
   RootN, El(1, "a"), LangAt(2, "en"), El(2, "b"), LangAt(4, "en-US"), Tx(4, "1"), El(4, "c"), El(2, "b"), LangAt(8, ""),
   Tx(8, "2"), El(2, "c"), LangAt(11, "fr"), Cm(11, "c"), Tx(2, "s") >>]
 
-\* D7 is used by the family "ctx" only
-DocSeq == IF Tier = "tiny" THEN <<D1>> ELSE <<D1, D2, D3, D4, D5, D6, D7>>
+\* <a xmlns:p="u1" x="1"><p:b p:x="1" x="2"><b/></p:b><c xmlns:q="u2"><q:b/>1</c></a>
+\* with its namespace nodes (every element: the implicit xml binding and the declarations in scope)
+NsN(p, pre, uri) == Nd("ns", p, <<>>, pre, <<>>, uri)
+XmlNs(p) == NsN(p, Cp("xml"), XmlNsUri)
+ElQ(p, pre, n, uri) == Nd("elem", p, Cp(pre), Cp(n), Cp(uri), <<>>)
+D8 == [prolog |-> <<>>, nodes |-> <<
+  RootN,
+  El(1, "a"), XmlNs(2), NsN(2, Cp("p"), Cp("u1")), At(2, "x", "1"),
+  ElQ(2, "p", "b", "u1"), XmlNs(6), NsN(6, Cp("p"), Cp("u1")), Nd("attr", 6, Cp("p"), Cp("x"), Cp("u1"), Cp("1")), At(6, "x", "2"),
+  El(6, "b"), XmlNs(11), NsN(11, Cp("p"), Cp("u1")),
+  El(2, "c"), XmlNs(14), NsN(14, Cp("p"), Cp("u1")), NsN(14, Cp("q"), Cp("u2")),
+  ElQ(14, "q", "b", "u2"), XmlNs(18), NsN(18, Cp("p"), Cp("u1")), NsN(18, Cp("q"), Cp("u2")),
+  Tx(14, "1") >>]
+
+\* D7 is used by the family "ctx" only, D8 by the family "ns" only
+DocSeq == IF Tier = "tiny" THEN <<D1>> ELSE <<D1, D2, D3, D4, D5, D6, D7, D8>>
+\* caller-side namespace bindings (prefixes of the expression context; note the swapped ones)
+BindSeq == << <<>>,
+              << <<Cp("r"), Cp("u1")>> >>,
+              << <<Cp("r"), Cp("u2")>>, <<Cp("p"), Cp("u1")>> >>,
+              << <<Cp("p"), Cp("u2")>>, <<Cp("q"), Cp("u1")>>, <<Cp("r"), Cp("u")>> >> >>
 MainDocs == IF Tier = "tiny" THEN {1} ELSE 1..6
 ASSUME \A k \in 1..Len(DocSeq) : TreeOk(DocSeq[k])
 
@@ -164,14 +183,15 @@ Atoms == { NumL(1), NumL(2), NumL(3) }
 ArOps == {"or", "and", "=", "!=", "<", "<=", ">", ">=", "+", "-", "*", "div", "mod"}
 
 Families == IF Tier = "tiny" THEN {"p1", "un", "fl"}
-            ELSE {"p1", "p2", "un", "fl", "cmp", "fn", "ctx", "ar", "ar3"}
+            ELSE {"p1", "p2", "un", "fl", "cmp", "fn", "ctx", "ns", "ar", "ar3"}
 
 Seeds ==
-  { [fam |-> "p1", d |-> k, a |-> ax] : k \in MainDocs, ax \in UsedAxes }
-  \cup (IF "p2" \in Families THEN { [fam |-> "p2", d |-> k, a |-> ax] : k \in MainDocs, ax \in UsedAxes } ELSE {})
-  \cup { [fam |-> f, d |-> k, a |-> "-"] : f \in Families \ {"p1", "p2", "ar", "ar3", "ctx"}, k \in MainDocs }
-  \cup (IF "ctx" \in Families THEN { [fam |-> "ctx", d |-> k, a |-> "-"] : k \in 1..Len(DocSeq) } ELSE {})
-  \cup (IF "ar" \in Families THEN { [fam |-> f, d |-> 1, a |-> o] : f \in {"ar", "ar3"}, o \in ArOps } ELSE {})
+  { [fam |-> "p1", d |-> k, a |-> ax, b |-> 1] : k \in MainDocs, ax \in UsedAxes }
+  \cup (IF "p2" \in Families THEN { [fam |-> "p2", d |-> k, a |-> ax, b |-> 1] : k \in MainDocs, ax \in UsedAxes } ELSE {})
+  \cup { [fam |-> f, d |-> k, a |-> "-", b |-> 1] : f \in Families \ {"p1", "p2", "ar", "ar3", "ctx", "ns"}, k \in MainDocs }
+  \cup (IF "ctx" \in Families THEN { [fam |-> "ctx", d |-> k, a |-> "-", b |-> 1] : k \in 1..7 } ELSE {})
+  \cup (IF "ns" \in Families THEN { [fam |-> "ns", d |-> 8, a |-> "-", b |-> k] : k \in 1..Len(BindSeq) } ELSE {})
+  \cup (IF "ar" \in Families THEN { [fam |-> f, d |-> 1, a |-> o, b |-> 1] : f \in {"ar", "ar3"}, o \in ArOps } ELSE {})
 
 Expand(s) ==
   CASE s.fam = "p1" -> { Rel(<<st>>) : st \in StepsOfAxis(s.a) } \cup { AbsP(<<Dos, st>>) : st \in StepsOfAxis(s.a) }
@@ -188,6 +208,18 @@ Expand(s) ==
     [] s.fam = "fn" -> UNION { FnApps(P) : P \in Pool }
     [] s.fam = "ctx" -> { AbsP(<<Dos, Step("child", TypeT("node"), <<p>>)>>) : p \in CtxPreds }
                         \cup { AbsP(<<Dos, Step("attribute", AnyT, <<p>>)>>) : p \in CtxPreds }
+    [] s.fam = "ns" ->
+         LET T == { [k |-> "name", pre |-> pr, loc |-> Cp(n)] : pr \in {<<>>, Cp("r"), Cp("p"), Cp("q")}, n \in {"b", "x", "c"} }
+                  \cup { [k |-> "nsany", pre |-> pr] : pr \in {Cp("r"), Cp("p"), Cp("q")} } \cup {AnyT}
+             NameIs(f, v) == Bin("=", Fn0(f), [t |-> "str", v |-> v])
+             P == { NameIs("name", Cp("p") \o Cp(":") \o Cp("b")), NameIs("name", Cp("b")), NameIs("local-name", Cp("b")),
+                    NameIs("local-name", Cp("x")), NameIs("namespace-uri", Cp("u1")), NameIs("namespace-uri", Cp("u2")),
+                    NameIs("namespace-uri", <<>>), NameIs("name", Cp("p") \o Cp(":") \o Cp("x")) }
+         IN  { AbsP(<<Dos, Step(ax, t, <<>>)>>) : ax \in {"child", "attribute", "descendant-or-self", "parent"}, t \in T }
+             \cup { AbsP(<<Dos, Step("child", AnyT, <<Rel(<<Step(ax, t, <<>>)>>)>>)>>) : ax \in {"child", "attribute", "self"}, t \in T }
+             \cup { AbsP(<<Dos, Step(ax, TypeT("node"), <<pr>>)>>) : ax \in {"child", "attribute"}, pr \in P }
+             \cup { Fn1(f, AbsP(<<Dos, Step(ax, t, <<>>)>>)) : f \in {"name", "local-name", "namespace-uri", "count"},
+                                                             ax \in {"child", "attribute"}, t \in T }
     [] s.fam = "ar" -> { Bin(s.a, Bin(o, x, y), z) : o \in ArOps, x \in Atoms, y \in {NumL(2)}, z \in Atoms }
                        \cup { Bin(s.a, x, Bin(o, y, z)) : o \in ArOps, x \in Atoms, y \in {NumL(2)}, z \in Atoms }
                        \cup { Bin(s.a, NegE(x), y) : x \in Atoms, y \in Atoms } \cup { NegE(Bin(s.a, x, y)) : x \in Atoms, y \in Atoms }
@@ -205,7 +237,8 @@ Next == /\ stage = 0
 Spec == Init /\ [][Next]_vars
 
 Doc == DocSeq[seed.d]
-Val(e) == EvalTop(Doc, e, <<>>)
+Binds == BindSeq[seed.b]
+Val(e) == EvalTop(Doc, e, Binds)
 
 (***************************************************************************)
 (* Theorems of the specification, checked on every case                    *)
@@ -246,7 +279,7 @@ StyleInv ==
   /\ NonParen(ET(ast, [abbrev |-> TRUE, ws |-> 0, parens |-> TRUE]))
        = NonParen(ET(ast, [abbrev |-> TRUE, ws |-> 0, parens |-> FALSE]))
 
-Case == [k |-> "xp", fam |-> seed.fam, doc |-> seed.d, ast |-> ast,
+Case == [k |-> "xp", fam |-> seed.fam, doc |-> seed.d, binds |-> Binds, ast |-> ast,
          sp |-> Spellings(ast, IF Tier = "thorough" THEN AllStyleSeq ELSE StyleSeq), exp |-> Val(ast)]
 Emit == PrintT(<<"REPLAY", ToJson(Case)>>)
 
